@@ -69,6 +69,10 @@ def lemma_axioms() -> list[z3.BoolRef]:
                                                       z3.Implies(z3.Not(z3.Select(m, a)),
                                                                  a - f_cnt(m, a) < b - f_cnt(m, b)))),
                          patterns=[z3.MultiPattern(f_cnt(m, a), f_cnt(m, b))]))
+    # P2: positivity of products of positive factors
+    i = z3.Int("i")
+    out.append(z3.ForAll([s, a, b], z3.Implies(z3.ForAll([i], z3.Implies(z3.And(a <= i, i < b), z3.Select(s, i) > 0)),
+                                               f_prod(s, a, b) > 0), patterns=[f_prod(s, a, b)]))
     # P1: prod split at the lower end: a<b => prod(s,a,b) = s[a]*prod(s,a+1,b)
     out.append(z3.ForAll([s, a, b], z3.Implies(a < b, f_prod(s, a, b) == z3.Select(s, a) * f_prod(s, a + 1, b)),
                          patterns=[f_prod(s, a, b)]))
